@@ -3101,24 +3101,38 @@ func _range(n *node) {
 	} else {
 		an = n.child[1]
 		if isString(an.typ.TypeOf()) {
+			// As above, the index is the byte position of the rune in the string.
+			stringType := reflect.TypeOf("")
 			value = genValueAs(an, rat) // range on string iterates over runes
+			n.exec = func(f *frame) bltn {
+				a := f.data[index2]
+				v0 := f.data[index3]
+				v0.SetInt(v0.Int() + 1)
+				i := int(v0.Int())
+				if i >= a.Len() {
+					return fnext
+				}
+				pos := a.Slice(0, i).Convert(stringType).Len()
+				f.data[index0].SetInt(int64(pos))
+				return tnext
+			}
 		} else {
 			value = genValueRangeArray(an)
-		}
-		n.exec = func(f *frame) bltn {
-			v0 := f.data[index0]
-			v0.SetInt(v0.Int() + 1)
-			if int(v0.Int()) >= f.data[index2].Len() {
-				return fnext
+			n.exec = func(f *frame) bltn {
+				v0 := f.data[index0]
+				v0.SetInt(v0.Int() + 1)
+				if int(v0.Int()) >= f.data[index2].Len() {
+					return fnext
+				}
+				return tnext
 			}
-			return tnext
 		}
 	}
 
 	// Init sequence
 	next := n.exec
 	index := index0
-	if isString(an.typ.TypeOf()) && len(n.child) == 4 {
+	if isString(an.typ.TypeOf()) {
 		index = index3
 	}
 	n.child[0].exec = func(f *frame) bltn {
